@@ -439,6 +439,7 @@ pub struct World {
     /// hook applied to each genuine datagram before fate: may rewrite bytes (MITM)
     pub mitm: Option<Box<dyn FnMut(&mut Dgram, &[Pkt], &mut MitmCtx) + Send>>,
     pub probe_level: u8,
+    pub max_trace: usize,
     pub client_tcfg: Arc<TransportConfig>,
     pub token_store: Option<Arc<dyn quinn_proto::TokenStore>>,
 }
@@ -629,6 +630,7 @@ impl World {
             keep_history: false,
             mitm: None,
             probe_level: 1,
+            max_trace: 60_000,
             client_tcfg,
             token_store: None,
             cfg,
@@ -1254,7 +1256,7 @@ impl World {
         for node in &self.nodes {
             for (c, slot) in &node.conns {
                 if let Some(t) = slot.conn.poll_timeout() {
-                    let us = t.saturating_duration_since(self.epoch).as_micros() as u64;
+                    let us = t.saturating_duration_since(self.epoch).as_nanos().div_ceil(1000) as u64;
                     if best.is_none_or(|b| us < b.0) {
                         best = Some((us, node.idx, *c));
                     }
@@ -1301,6 +1303,15 @@ impl World {
     /// before `limit_us`.
     pub fn step(&mut self, limit_us: u64) -> bool {
         self.steps += 1;
+        if self.trace.len() > self.max_trace || self.panicked {
+            if !self.panicked {
+                let t = self.now_us;
+                self.trace
+                    .push(json!({"ev":"StepBound","t":t,"what":"max_trace"}));
+                self.panicked = true;
+            }
+            return false;
+        }
         let late = self.cfg.late_us;
         let nd = self.next_delivery().map(|i| self.net[i].at_us);
         let nt = self.next_timer().map(|(t, n, c)| (t + late, n, c));
